@@ -126,7 +126,7 @@ func indexOf(s string, ch byte) int {
 
 const (
 	runBudget = 90000000
-	opBudget  = 12000000
+	opBudget  = 48000000
 )
 
 func (p *Prop) Run(t *simhook.Tape, opt simkit.RunOpt) *simkit.RunResult {
